@@ -917,5 +917,111 @@ class FilterArgStream(Stream):
         return []
 
 
+# ---- the shape table of every registered filter ----------------------------------------------
+SUBST = [("nil", None), ("''", ""), ("0", 0), ("e", [])]
+
+
+class ShapeStream(Stream):
+    """Model/FilterRegistry.lean against the code: for every registered filter, which operand positions raise
+    UndefinedError under which undefined type, and which plain value a missing operand stands for."""
+
+    name = "shapes"
+    exhaustive = True
+    parallel = True
+
+    def cases(self, ctx):
+        from liquid import Environment
+
+        return [{"filter": n} for n in sorted(Environment(extra=True).filters)]
+
+    def _discover(self, name):
+        from liquid import Environment
+
+        env = Environment(extra=True)
+        data = dict(ARG_DATA, e=[])
+        found: dict = {}
+        for inp in ARG_INPUTS:
+            for args in ARG_LISTS:
+                if len(args) in found:
+                    continue
+                try:
+                    env.from_string("{{ " + inp + " | " + name + (": " + ", ".join(args) if args else "") + " }}").render(**copy.deepcopy(data))
+                    found[len(args)] = (inp, args)
+                except Exception:
+                    pass
+        return found
+
+    def impl(self, case):
+        name = case["filter"]
+        found = self._discover(name)
+        if not found:
+            return {"found": False}
+        data = dict(ARG_DATA, e=[])
+        prog = {"extra": True, "partials": {}, "flags": {}, "autoescape": False}
+        n = max(found)
+        inp, args = found[n]
+        a0 = found[min(found)][1]
+
+        def pattern(tpl):
+            outs = {k: render_kind(tpl, data, k, prog=prog) for k in KINDS}
+            return [outs[k].get("err") == "UndefinedError" for k in KINDS], outs
+
+        def tpl_of(i, a):
+            return "{{ " + i + " | " + name + (": " + ", ".join(a) if a else "") + " }}"
+
+        in_pat, in_outs = pattern(tpl_of("m", a0))
+        in_cands = [v for (lit, v) in SUBST if render_kind(tpl_of(lit, a0), data, "default", prog=prog) == in_outs["default"]]
+        refine = refine_violation("shapes", in_outs)
+        rows = []
+        for i in range(n):
+            a2 = list(args)
+            a2[i] = "m"
+            pat, outs = pattern(tpl_of(inp, a2))
+            refine = refine or refine_violation("shapes", outs)
+            cands = []
+            for lit, v in SUBST:
+                a3 = list(args)
+                a3[i] = lit
+                if render_kind(tpl_of(inp, a3), data, "default", prog=prog) == outs["default"]:
+                    cands.append(v)
+            rows.append({"raises": pat, "cands": cands})
+        return {"found": True, "input": in_pat, "in_cands": in_cands, "in_ok": "ok" in in_outs["default"], "args": rows,
+                "refine": list(refine) if refine else None}
+
+    def line_obs(self, case, obs):
+        if not obs.get("found"):
+            return None
+        return ["c16shape", case["filter"], obs["in_cands"], [r["cands"] for r in obs["args"]]]
+
+    def compare_view(self, case, obs):
+        # default: not a shape (kind dependent); its input row is compared, its argument is the reviewed exception
+        return {"input": obs["input"], "args": [{"raises": r["raises"], "as": True} for r in obs["args"]]}
+
+    def canon_model(self, case, mobs):
+        if not isinstance(mobs, dict) or "input" not in mobs:
+            return mobs
+        args = [{"raises": a["raises"], "as": True if a["as"] is None else a["as"]} for a in mobs["args"]]
+        inp = mobs["input"]
+        if mobs.get("special"):  # `default`: StrictUndefined raises through __liquid__, StrictDefaultUndefined is forced
+            inp = [False, True, False, False]
+        return {"input": inp, "args": args, "_inAs": mobs["inAs"]} if mobs["inAs"] is False else {"input": inp, "args": args}
+
+    def oracle(self, case, obs):
+        if obs.get("refine"):
+            return tuple(obs["refine"])
+        return None
+
+    def nontrivial(self, case, obs):
+        return bool(obs.get("found"))
+
+    def tags(self, case, obs):
+        if not obs.get("found"):
+            return ["not-driven"]
+        return [f"args{len(obs['args'])}", "input-deep" if obs["input"][2] else "input-shallow"]
+
+    def shrink_candidates(self, case):
+        return []
+
+
 def streams(ctx):
-    return [PokeStream(), ModelStream(), RefineStream(), ConstructStream(), EngineStream(), FilterArgStream()]
+    return [PokeStream(), ModelStream(), RefineStream(), ConstructStream(), EngineStream(), FilterArgStream(), ShapeStream()]
